@@ -107,6 +107,19 @@ def jobs_for(tier):
         J("F-more-%d" % arr, groups(L - 1, ["backup", "lines", "fixtrail"], action=more),
           dict(allcomp, VF_BUFSIZES=sizes, VF_OPMASK=H.opmask(H.OP_MORE), VF_BUDGET_OP=2, VF_BUDGET_TOTAL=2),
           options=(["array"] if arr else []), cdefs=(["VF_ARRAY"] if arr else []))
+    # yymore() on in-memory sources: a buffer that is never refilled ends in the middle of yymore()'s bookkeeping when the action of
+    # its last token asks for more (round-8 seed C03-r8m2: the c99 scanner never reached the end of a yy_scan_string buffer)
+    for api in ("NR", "R", "C99"):
+        for src in (1, 2, 3):
+            J("F-more-scan%d-%s" % (src, api), groups(L - 1, ["backup", "lines", "fixtrail"], action=H.ops_action([H.OP_MORE], api)),
+              {"VF_OPMASK": H.opmask(H.OP_MORE), "VF_BUDGET_OP": 2, "VF_BUDGET_DEFAULT": 0, "VF_BUDGET_TOTAL": 2},
+              api=api, options=(["reentrant"] if api == "R" else []), cdefs=["VF_SOURCE_SCAN=%d" % src])
+    # an identifier that merely looks like REJECT / yymore in an action must not switch the scanner to the machinery that cannot enlarge
+    # its buffer (round-8 seed C03-r8m3): tokens several times the buffer size, every delivery
+    ident = "{ vf_ctr.reject++; vf_ctr.rejected++; vf_ctr.Reject++; }"
+    for ro in (1, 2):
+        J("B-ident-%d" % ro, groups(0, None, long_inputs=True, action=ident), {"VF_READ_ONE": ro, "VF_BUFSIZES": "0,1,2,3,5,8"},
+          prologue="static struct { int reject, rejected, Reject; } vf_ctr;")
     return jobs
 
 
